@@ -145,7 +145,27 @@ def call(f, *a, **k):
         return ("err", type(e).__name__ + ":" + str(e)[:120])
 
 
-def one_case(ctx, prog, vec=None, label="gen"):
+DERIVATIONS = ("uniform_floats", "prior_means", "prior_arguments", "with_limits")
+
+
+def derive_model(model, how):
+    """a model derived from `model` by one of the library's own routes (prior passing, tightened limits, replaced
+    priors): a composition like any other, built by other code than the constructors"""
+    ps = list(model.priors_ordered_by_id)
+    if how == "uniform_floats":
+        return model.mapper_from_uniform_floats([0.5] * len(ps), b=0.25)
+    if how == "prior_means":
+        import contextlib, io
+        with contextlib.redirect_stdout(io.StringIO()):
+            return model.mapper_from_prior_means([0.5] * len(ps), a=1.0)
+    if how == "prior_arguments":
+        return model.mapper_from_prior_arguments({p: af.UniformPrior(lower_limit=0.0, upper_limit=1.0) for p in ps})
+    if how == "with_limits":
+        return model.with_limits([(-1.0e3, 1.0e3)] * len(ps))
+    raise ValueError(how)
+
+
+def one_case(ctx, prog, vec=None, label="gen", derive=None):
     rng = ctx.rng
     try:
         H = gen_comp.run_program(prog)
@@ -154,6 +174,13 @@ def one_case(ctx, prog, vec=None, label="gen"):
         ctx.notes.setdefault("program_rejections", []).append(f"{type(e).__name__}: {str(e)[:80]}") if len(ctx.notes.get("program_rejections", [])) < 5 else None
         return
     model = H["root"]
+    if derive:
+        try:
+            model = derive_model(model, derive)
+        except Exception as e:  # noqa: whether passing succeeds is C12's subject
+            ctx.hit("derivation-raised:" + type(e).__name__)
+            return
+        ctx.hit("derived-model:" + derive)
     comp = X.node_of(model)
     feats = features(comp)
     n_ids = len(feats["ids"])
@@ -213,6 +240,8 @@ def one_case(ctx, prog, vec=None, label="gen"):
     ctx.hit(f"params:{min(n_ids, 9)}")
 
     case = {"program": prog, "vector": v, "label": label}
+    if derive:
+        case["derive"] = derive
     ulps = 4 if has_loose(comp) else 0
     for key in ("count", "ids", "paths", "unique_paths"):
         if impl[key] != ans.get(key):
@@ -325,6 +354,7 @@ def one_case(ctx, prog, vec=None, label="gen"):
                      case, {"path": list(map(str, path)), "got": repr(got), "want": want})
     # derived values and constants
     check_derived_and_consts(ctx, model, inst, args, case, ())
+    instances_independent(ctx, model, v, case)
     # models derived from this one (prior passing, tightened limits, replaced priors) are new models: the model
     # they were derived from still advertises and builds what it did
     try:
@@ -348,6 +378,83 @@ def one_case(ctx, prog, vec=None, label="gen"):
             ctx.fail("C01-model-changed-by-derivation",
                      "deriving another model (mapper_from_uniform_floats / mapper_from_prior_arguments) changed what the original model "
                      "advertises or builds", case, {"composition_changed": comp2 != comp, "instance_changed": inst2 != inst1})
+
+
+def _reachable_ids(root):
+    seen, stack = set(), [root]
+    while stack:
+        x = stack.pop()
+        if id(x) in seen or isinstance(x, (int, float, str, bool, type(None), type)):
+            continue
+        seen.add(id(x))
+        if isinstance(x, dict):
+            stack.extend(x.values())
+        elif isinstance(x, (list, tuple)):
+            stack.extend(x)
+        elif hasattr(x, "__dict__"):
+            stack.extend(vars(x).values())
+    return seen
+
+
+def _scramble(x, held, seen):
+    """overwrite every number of an instance in place (what an analysis is free to do with the instance it is given);
+    objects the model itself holds (components fixed to a user's object are placed by reference) are left alone"""
+    if id(x) in seen or id(x) in held or isinstance(x, (int, float, str, bool, type(None), type)):
+        return
+    seen.add(id(x))
+    if isinstance(x, list):
+        for k, v in enumerate(x):
+            if isinstance(v, float):
+                x[k] = 12345.678
+            else:
+                _scramble(v, held, seen)
+    elif isinstance(x, tuple):
+        for v in x:
+            _scramble(v, held, seen)
+    elif isinstance(x, dict):
+        for k, v in list(x.items()):
+            if isinstance(v, float):
+                x[k] = 12345.678
+            else:
+                _scramble(v, held, seen)
+    elif hasattr(x, "__dict__"):
+        for k, v in list(vars(x).items()):
+            if isinstance(v, float) and not isinstance(v, bool):
+                try:
+                    setattr(x, k, 12345.678)
+                except Exception:  # noqa
+                    pass
+            else:
+                _scramble(v, held, seen)
+
+
+def instances_independent(ctx, model, v, case):
+    """every instance is built from the model: what was done to an instance built earlier (an analysis may work on the
+    instance it receives in place) does not show in the next one - also while the model is frozen, as it is
+    during a search"""
+    held = _reachable_ids(model)
+    for frozen in (False, True):
+        try:
+            if frozen:
+                model.freeze()
+            a = model.instance_from_vector(v, ignore_prior_limits=True)
+            before = X.canon_inst(X.inst_of(a))
+            _scramble(a, held, set())
+            after = X.canon_inst(X.inst_of(model.instance_from_vector(v, ignore_prior_limits=True)))
+        except Exception as e:  # noqa
+            ctx.hit("independence-probe-raised:" + type(e).__name__)
+            continue
+        finally:
+            if frozen:
+                model.unfreeze()
+        ctx.hit("independence-probe:" + ("frozen" if frozen else "thawed"))
+        d = X.inst_diff(before, after, 0)
+        if d:
+            ctx.fail("C01-instance-aliased",
+                     "an instance built after an earlier instance was modified in place differs from that earlier instance as built "
+                     "(fixed values / vector values are not taken from the model)", case | {"frozen": frozen},
+                     {"diff_at": d[0], "first": d[1], "second": d[2]})
+            return
 
 
 def nonctor_place(model, path):
@@ -448,12 +555,16 @@ def run(ctx):
     corpus = sorted((VERIF / "corpus" / "C01").glob("*.json"))
     for f in corpus:
         c = json.loads(f.read_text())
-        one_case(ctx, c["program"], c.get("vector"), label=f.name)
+        one_case(ctx, c["program"], c.get("vector"), label=f.name, derive=c.get("derive"))
     n = ctx.n(250, 5000)
     for k in range(n):
         big_tuple = ctx.rng.random() < 0.15
         prog = gen_comp.gen_program(ctx.rng, allow_tuple=True)
         one_case(ctx, prog)
+        if ctx.rng.random() < 0.2:
+            # the same composition after one of the library's own derivations: what the derived model advertises
+            # and builds must agree in the same way
+            one_case(ctx, prog, derive=ctx.rng.choice(DERIVATIONS))
     same_named_classes(ctx)
 
 
@@ -461,4 +572,4 @@ def replay(ctx, payload):
     case = payload.get("case") or payload.get("disagreements", [{}])[0].get("case")
     if case.get("label") == "same-named-classes":
         return same_named_classes(ctx)
-    one_case(ctx, case["program"], case.get("vector"), label="replay")
+    one_case(ctx, case["program"], case.get("vector"), label="replay", derive=case.get("derive"))
